@@ -200,6 +200,10 @@ static std::vector<double> a_grid()
 	as.push_back(100);
 	as.push_back(1);
 	as.push_back(0.5);
+	// integers and their immediate neighbourhood (a test "is a an integer?" with a tolerance would lump these together)
+	for(double k : {1.0, 2.0, 3.0, 5.0, 10.0, 30.0, 31.0})
+		for(double d : {0.0, 5e-11, -5e-11, 1e-12, -1e-12, 3e-9})
+			as.push_back(k * (1 + d));
 	std::sort(as.begin(), as.end());
 	return as;
 }
